@@ -349,6 +349,7 @@ async def run_connections(st, uni, nconns, schedule, sid_map, rate_limiter=None,
     schedule: list of steps
        ("open", c)                       start the handler of connection c
        ("msg", c, abstract_message)      put the frame into c's inbox; abstract_message = dict(m=..., ...)
+       ("hold",) / ("release",)          stored queries do not get their rows in between (they stay in the middle of their work)
        ("defer", c, abstract_message)    the same, but the frame arrives when the storage layer next suspends a fan-out
        ("disc", c)                       the peer goes away
        ("timeout", c)                    the peer stays silent until the relay's message timeout fires (the relay closes)
@@ -390,6 +391,43 @@ async def run_connections(st, uni, nconns, schedule, sid_map, rate_limiter=None,
     from nostr_relay.storage import base as _base
 
     real_base_asyncio = _base.asyncio
+
+    # "hold" / "release" steps: while held, stored queries do not get their rows (SQL: the cursor's fetches wait; LMDB: the
+    # plan's execution in the reader pool waits), so that a CLOSE or a replacing REQ finds the query in the middle of its work
+    import threading
+
+    hold_ev = asyncio.Event()
+    hold_ev.set()
+    hold_thread_ev = threading.Event()
+    hold_thread_ev.set()
+    unpatch = []
+    if any(step[0] == "hold" for step in schedule):
+        try:
+            import aiosqlite
+
+            for name in ("fetchmany", "fetchone", "fetchall"):
+                orig_fetch = getattr(aiosqlite.Cursor, name)
+
+                def mk_fetch(orig_fetch=orig_fetch):
+                    async def fetch(self_, *a, **kw):
+                        await hold_ev.wait()
+                        return await orig_fetch(self_, *a, **kw)
+                    return fetch
+                setattr(aiosqlite.Cursor, name, mk_fetch())
+                unpatch.append(lambda name=name, orig_fetch=orig_fetch: setattr(aiosqlite.Cursor, name, orig_fetch))
+        except ImportError:
+            pass
+        import sys as _sys
+
+        kv = _sys.modules.get("nostr_relay.storage.kv")
+        if kv is not None:
+            orig_plan = kv.execute_one_plan
+
+            def held_plan(*a, **kw):
+                hold_thread_ev.wait(15)
+                return orig_plan(*a, **kw)
+            kv.execute_one_plan = held_plan
+            unpatch.append(lambda: setattr(kv, "execute_one_plan", orig_plan))
 
     deferred = []
 
@@ -506,6 +544,12 @@ async def run_connections(st, uni, nconns, schedule, sid_map, rate_limiter=None,
             elif kind == "msg":
                 cn = conns[step[1]]
                 cn.inbox.put_nowait(("msg", concretise(step[2]), step[2]))
+            elif kind == "hold":
+                hold_ev.clear()
+                hold_thread_ev.clear()
+            elif kind == "release":
+                hold_ev.set()
+                hold_thread_ev.set()
             elif kind == "defer":
                 # a message that arrives when the storage layer next suspends a fan-out (or at the next idle point at the latest)
                 deferred.append((step[1], ("msg", concretise(step[2]), step[2])))
@@ -541,6 +585,8 @@ async def run_connections(st, uni, nconns, schedule, sid_map, rate_limiter=None,
                 for _ in range(step[1]):
                     await asyncio.sleep(0)
         release_deferred()
+        hold_ev.set()
+        hold_thread_ev.set()
         # end of schedule: disconnect whoever is still connected, then quiesce
         await idle()
         for cn in conns.values():
@@ -555,6 +601,10 @@ async def run_connections(st, uni, nconns, schedule, sid_map, rate_limiter=None,
         rec.uninstall()
         web.asyncio = real_asyncio
         _base.asyncio = real_base_asyncio
+        hold_ev.set()
+        hold_thread_ev.set()
+        for fn in unpatch:
+            fn()
         _util.secrets = real_secrets
     rec.log.append({"a": "LimiterCalls", "calls": rec.limiter_calls}) if rec.limiter_calls else None
     return rec.log, {c: {"result": cn.result, "close_code": cn.closed_code} for c, cn in conns.items()}, rec.errors
